@@ -15,7 +15,7 @@ META = {
     'text': 'Breadth-first search over histories of wrapped calls on the production wrapper; states are digests of every writable symbol of the library plus '
             'process attributes; every (reachable state, call letter) pair is executed; when the state set closes the result holds for histories of any length '
             'over the alphabet. All ordered pairs (and triples of a reduced alphabet in thorough) are executed in addition, as a guard against state outside the digest.',
-    'note': 'Alphabet: execv/execve x 3 paths x 10 argv shapes (NULL, argv[0]==NULL, empty strings, lengths limit-1/limit/limit+1/10x, 3000 entries) x 2 data-source limits, both builds. '
+    'note': 'Alphabet: execv/execve x 3 paths x 11 argv shapes (NULL, argv[0]==NULL, empty strings, lengths limit-1/limit/limit+1/10x, 3000 entries) x 2 data-source limits, both builds. '
             'How long a truncated prefix may be is C05\'s business; here any prefix is accepted.',
 }
 
@@ -23,7 +23,7 @@ META = {
 def letters(dsmax):
     paths = {'p': b'/p', 'e': b'', 'L': b'P' * 3000}
     argvs = {
-        'NULL': None, 'a0NULL': [], 'a': [b'a'], 'xyz': [b'x', b'y z', b''],
+        'NULL': None, 'a0NULL': [], 'emptystr': [b''], 'a': [b'a'], 'xyz': [b'x', b'y z', b''],
         'lim-1': [b'k' * 100, b'm' * (dsmax - 1 - 101)], 'lim': [b'k' * 100, b'm' * (dsmax - 101)], 'lim+1': [b'k' * 100, b'm' * (dsmax + 1 - 101)],
         'x10': [b'q' * dsmax] * 10, 'n3000': [b'ab'] * 3000,
         # many empty strings then a real argument, total just below the limit (one byte per argument: separator only)
@@ -146,5 +146,5 @@ def run(ck):
                        'truncated values: any prefix accepted (C05 decides the length)']
     ck.coverage(states=total_states, transitions=total_trans, traces_validated_against_impl=total_trans, evaluations=total_trans,
                 distinct_nontrivial=len(outcomes), state_set_closed=closed_all,
-                rule='BFS over histories of the 60-letter call alphabet per (build, limit), de-duplicated on the real-state digest, plus ordered pairs; distinct = (build, limit, letter, record)',
+                rule='BFS over histories of the 66-letter call alphabet per (build, limit), de-duplicated on the real-state digest, plus ordered pairs; distinct = (build, limit, letter, record)',
                 samples=samples or [{'note': 'none'}])
